@@ -100,6 +100,27 @@ def run(quiet=False):
         rb = {c.bb for c in b.calls(r'^rollback$')}
         tests = result_tests(b, st)
         expect('state-paths:' + fn, must_pass_state(b, st.ret, tests, 'err', rb)[0], want)
+    # buffered writers
+    from .rules.common import buffered_drops
+    for fn, want in (('buffered_dropped_unflushed', [False]), ('buffered_flushed', [True]), ('buffered_flush_ignored', [False]), ('buffered_flushed_by_callee', [True])):
+        expect('buffered-drop:' + fn, [x[3] for x in buffered_drops(B(fn))], want)
+    # identity hashes
+
+    class _Ctx:
+        def __init__(self):
+            self.lib = u
+            self.out = []
+
+        def need_body(self, rule, fn):
+            return u.body(fn)
+
+        def check(self, ok, *a):
+            self.out.append(bool(ok))
+    from .rules.common import delimited_identity_hash
+    for fn, want in (('hash_undelimited', [False]), ('hash_delimited', [True]), ('hash_by_impl', [True])):
+        c = _Ctx()
+        delimited_identity_hash(c, 'X', fn)
+        expect('identity-hash:' + fn, c.out, want)
     bad = [r for r in res if not r[1]]
     if not quiet:
         for name, ok, got, want in res:
